@@ -298,10 +298,25 @@ type Batch struct {
 	Rounds int `json:"rounds,omitempty"`
 }
 
+// largeEvery: one batch in this many is a large one (32 goroutines, 10-25 rounds over long sources). A
+// large batch costs about 16 core-seconds; the thorough tier runs 12 shards of 4000 batches at once,
+// so it draws them more rarely (about 200 in all) to stay within its time budget.
+var largeEvery = 30
+
+// mix64 spreads rapid's draws (which favour small numbers) over the whole range.
+func mix64(u uint64) uint64 {
+	u ^= u >> 30
+	u *= 0xBF58476D1CE4E5B9
+	u ^= u >> 27
+	u *= 0x94D049BB133111EB
+	u ^= u >> 31
+	return u
+}
+
 func genBatch(t *rapid.T) Batch {
 	n := rapid.IntRange(2, 4).Draw(t, "n")
 	b := Batch{}
-	if rapid.IntRange(0, 29).Draw(t, "large") == 0 {
+	if mix64(rapid.Uint64().Draw(t, "large"))%uint64(largeEvery) == 7 {
 		b.Rounds = rapid.IntRange(10, 25).Draw(t, "rounds")
 		for i := 0; i < n; i++ {
 			unit := genValid(t, "unit") + "\n"
@@ -532,6 +547,9 @@ func TestC15(t *testing.T) {
 	defer c.Finish()
 	c.Rule("total: byte strings (random bytes, token soups over the full token vocabulary incl. unterminated strings/comments/NUL/non-UTF-8, truncations/deletions/insertions/duplications/splices of generated valid programs, bracket nests up to 1500 deep, valid programs); non-trivial = >= 3 whitespace-separated chunks and (parses, or rejected at a position other than 1:1). concurrent: batches parsed from 8 goroutines vs alone. compose: pairs of generated valid programs (incl. empty, comment-only, trailing ';', leading blank lines); non-trivial = both have >= 1 statement and A spans >= 2 lines. distinct by text")
 	h.Run(c, "total", c.N(45000, 150000), genInput, oracleTotal)
+	if c.Thorough() {
+		largeEvery = 240
+	}
 	h.Run(c, "concurrent", c.N(1500, 4000), genBatch, oracleConcurrent)
 	h.Run(c, "compose", c.N(12000, 50000), genPair, oracleCompose)
 }
